@@ -365,6 +365,8 @@ def check_property(prop, tier, seed, replay=None):
     for n, t in kani_undecided:
         print('UNDECIDED kani harness=%s: %s' % (n, t), file=sys.stderr)
     if rc == 0:
+        kf_ids = set(k['obligation'] for k, m in known_hit)
+        all_obs = [o for o in all_obs if o['id'] not in kf_ids]
         nd = sum(1 for o in all_obs if o['discharged'])
         print('OK property=%s obligations=%d discharged=%d units=%s wall=%.1fs' % (prop, len(all_obs), nd, ','.join(sorted(units)), wall))
     return rc
